@@ -53,6 +53,15 @@ class Rig:
                     if self.srv.reopen():
                         return "reopen() reports success although bind() failed"
                 elif op == "peer":
+                    # every second time a peer connects again from an address the server still holds a connection for, that
+                    # peer had closed its side first and the server has seen the end of the stream (the held connection is cut
+                    # off): it is still the server's to close when it is replaced
+                    old = getattr(self.srv, "ixes", {}).get(ADDR[a[0]])
+                    if old is not None and old.cs is not None:
+                        self.again = getattr(self, "again", 0) + 1
+                        if self.again % 2 == 1 and not old.cs.closed:
+                            old.cs.recvplan = ["eof"]
+                            old.receive()
                     f = fakesock.FakeConn(ca=ADDR[a[0]], ha=("127.0.0.1", 56000), tls=self.tls, registry=None)
                     f.peer = a[0]
                     # every second connection has been reset by its peer by the time the server shuts it down: shutdown()
